@@ -366,6 +366,8 @@ def documented_comments(toks):
     """comments of a token list that precede a significant token, plus those on the last token's line"""
     last_sig = max([i for i, t in enumerate(toks) if t[0] == "T"], default=-1)
     out = []
+    if last_sig < 0:
+        return out          # a file without a token has no placeholder at all (it is formatted to an empty file)
     for i, t in enumerate(toks):
         if t[0] != "C":
             continue
